@@ -22,6 +22,11 @@ WORKERS = 8
 # bracket-set scope: body bytes ] ^ - + / % a ; subjects: the bytes around the range bounds
 SETB = [93, 94, 45, 43, 47, 37, 97]
 SETS = [37, 42, 43, 44, 45, 46, 47, 48, 93, 94, 96, 97, 98]     # % * + , - . / 0 ] ^ ` a b
+# escape scope: '%' followed by every kind of byte (class / non-class letters of both cases, digits,
+# punctuation, control and high bytes); %f (frontier) is outside the property
+ESCQ = ([c for c in range(65, 91)] + list(b"acdlpsuwxz") + list(b"egkq") + [48, 49, 57] +
+        [33, 35, 37, 40, 45, 46, 91, 93, 94] + [10, 127, 128, 233, 255])
+ESCT = [c for c in range(1, 256) if c != 102]
 P16 = [97, 98, 46, 37, 91, 93, 94, 36, 40, 41, 42, 43, 45, 63, 49, 100]   # a b . % [ ] ^ $ ( ) * + - ? 1 d
 
 
@@ -59,6 +64,15 @@ NOISE = [97, 98, 49, 32, 46, 45, 95, 40, 41, 123, 125, 65, 90, 10, 0, 233, 255, 
 DASH_SETS = ["--{hi}", "{lo}--", "a--", "{lo}--z", "{lo}-{hi}-a", "a-c-e", "-a", "a-", "-", "%w-", "%a-z",
              "]-a", "]--", "{lo}---{hi}", "--", "---", "%--{hi}", "{lo}-{hi}-"]
 SPECIAL = b"^$()%.[]*+-?"
+# bytes that may follow '%' as a plain escape: every letter except b/f (balance, frontier), punctuation,
+# control and high bytes (digits are back-references and are generated elsewhere)
+ESCAPABLE = ([c for c in range(65, 91)] + [c for c in range(97, 123) if c not in (98, 102)] +
+             [33, 35, 36, 37, 38, 40, 41, 42, 43, 44, 45, 46, 47, 58, 63, 64, 91, 93, 94, 95, 96, 123, 126] +
+             [1, 10, 127, 128, 160, 233, 255])
+
+
+def twin(c):
+    return c + 32 if 65 <= c <= 90 else c - 32 if 97 <= c <= 122 else c
 
 
 class PatGen:
@@ -82,6 +96,11 @@ class PatGen:
             return bytes([c]), lambda: c
         if r < 0.50:
             return b".", lambda: rng.choice(NOISE)
+        if r < 0.58:
+            x = rng.choice(ESCAPABLE)
+            if chr(x) in "acdlpsuwxzACDLPSUWXZ":
+                return bytes([37, x]), lambda: rng.choice([self.member(x), x, twin(x), 35])
+            return bytes([37, x]), lambda: rng.choice([x, x, twin(x), 35])
         if r < 0.72:
             cl = rng.choice(CLASSES)
             return bytes([37, cl]), lambda: self.member(cl)
@@ -126,9 +145,9 @@ class PatGen:
                 body += bytes([37, cl])
                 members.append(self.member(cl))
             elif r < 0.75:
-                c = rng.choice(b"]%-^")
+                c = rng.choice(b"]%-^") if rng.random() < 0.5 else rng.choice(ESCAPABLE)
                 body += bytes([37, c])
-                members.append(c)
+                members.append(c if chr(c) not in "acdlpsuwxzACDLPSUWXZ" else self.member(c))
             else:
                 c = rng.choice(b"ab1 ._(A^")
                 body += bytes([c])
@@ -395,7 +414,7 @@ def mc_gen(tag, palpha, salpha, maxp, maxs, stats, verd, cov, timeout, module="P
     nsub = sum(len(salpha) ** k for k in range(maxs + 1))
     vlib.log("[C14] MC %s: %d patterns (all over %d symbols, length <= %d) x %d subjects (length <= %d over %s): "
              "laws WellFormed/Regular/Captures/Drivers hold, reference results exported (%.0fs)" % (
-                 tag, r.distinct, len(palpha), maxp, nsub, maxs, b2s(salpha), r.wall))
+                 tag, r.distinct, len(palpha), maxp, nsub, maxs, repr(b2s(salpha))[:48], r.wall))
     sd = vlib.subdir("c14")
     genf = os.path.join(sd, "gen_%s.txt" % tag)
     outf = os.path.join(sd, "gen_%s.json" % tag)
@@ -508,8 +527,20 @@ def run(tier):
     else:
         mc_gen("P16^<=3 x {a,b}^<=2", P16, [97, 98], 3, 2, stats, verd, cov, 600)
     # every bracket set "[" body "]": '-' in every position relative to ranges
-    mc_gen("sets [body<=%d] x 1 byte" % (5 if thorough else 4), SETB, SETS, 5 if thorough else 4, 1,
+    # (quick: body without '/', the ranges "--a" and "+-a" take the place of "--/" and "+-/")
+    mc_gen("sets [body<=%d] x 1 byte" % (5 if thorough else 4), SETB if thorough else [c for c in SETB if c != 47],
+           SETS, 5 if thorough else 4, 1,
            stats, verd, cov, 2400, module="PatternSets", cfg="PatternSets")
+    # '%x' for every kind of byte x, outside and inside sets, against x, its twin and neutral bytes
+    if thorough:
+        # two halves (the other-case twin of x always lies in the same half)
+        mc_gen("escapes %%x, x in 1..127 x 1 byte" % (), [c for c in ESCT if c < 128], list(range(0, 128)) + [233],
+               6, 1, stats, verd, cov, 2400, module="PatternEsc", cfg="PatternEsc")
+        mc_gen("escapes %%x, x in 128..255 x 1 byte" % (), [c for c in ESCT if c >= 128], [0, 35, 65, 97] + list(range(128, 256)),
+               6, 1, stats, verd, cov, 2400, module="PatternEsc", cfg="PatternEsc")
+    else:
+        mc_gen("escapes %%x, %d bytes x x 1 byte" % len(ESCQ), ESCQ, sorted(set(ESCQ + [102])), 4, 1, stats, verd, cov,
+               900, module="PatternEsc", cfg="PatternEsc")
     random_direction(60000 if thorough else 4000, verd, stats, cov)
     stress(verd, cov, 1)
     rc = verd.finish()
@@ -534,6 +565,8 @@ def run(tier):
     }, time.time() - t0, len(verd.violations), assumptions=[
         "patterns contain no byte 0 (C strings in 5.1) and no %f (frontier is outside the property statement)",
         "exhaustive scope: pattern alphabet a b . % [ ] ^ $ ( ) * + - ? 1 d, init in -5..5 and absent, 7 replacement cases",
+        "set scope: every '[' body ']' with body <= 4 (thorough 5) over ] ^ - + / % a (quick without /) x subjects of <= 1 byte around the range bounds",
+        "escape scope: '%x' and 4 (thorough 6) shapes around it, outside and inside sets, for x = all letters but f, digits, punctuation, control and high bytes (thorough: every byte 1..255 but f) x subjects of <= 1 byte containing x and its other-case twin",
         "random scope: patterns <= 40 bytes, subjects <= 24 bytes, <= 4 captures, <= 4 quantifiers",
         "a malformed pattern/replacement may give a Lua error, no match, or the reference result",
         "error message texts are not compared",
